@@ -152,7 +152,13 @@ func opPP(r *rand.Rand, n int, tier string) {
 		junks := "-"
 		lits := []string{"zzz-never", ": ", "[locked]", "minutes", "Created by"}
 		forced := ""
-		switch r.Intn(6) {
+		choice := r.Intn(6)
+		// every tenth case is a stream whose last dump is followed by exactly one unterminated line
+		forceTrailer := i%10 == 3
+		if forceTrailer {
+			choice = 1
+		}
+		switch choice {
 		case 5: // a bucket whose whole header is a proper part of another bucket's header ("1: S" in "11: S")
 			st := []string{"chan receive", "select", "IO wait", "running"}[r.Intn(4)]
 			base := g.dump(2, 3)
@@ -193,10 +199,10 @@ func opPP(r *rand.Rand, n int, tier string) {
 				if k == nd-1 && r.Intn(2) == 0 {
 					j += "last line without eol"
 				}
-				if k == nd-1 && r.Intn(2) == 0 {
+				if k == nd-1 && (r.Intn(2) == 0 || forceTrailer) {
 					j = "exit status 2" // exactly one unterminated line after the last dump
 				}
-				if k == 0 && r.Intn(3) == 0 {
+				if k == 0 && r.Intn(3) == 0 && !(forceTrailer && nd == 1) {
 					// more text after the first dump than the read-ahead buffer holds
 					j += variedText(r, 18000+r.Intn(9000)) + "\n" + genJunk(r, 1+r.Intn(2), true, false)
 				}
